@@ -2,13 +2,14 @@
 """Store confirmed seeded changes under /verif/seeded/<prop>-<k>/ (patch.diff, demonstration, meta.json)."""
 import sys, os, json, shutil, glob
 src_root = sys.argv[1] if len(sys.argv) > 1 else '/tmp/mut/out'
+tag = 'r2' if src_root.rstrip('/').endswith('out2') else ''   # second-round seeds are stored as <prop>-r2m<k>
 for d in sorted(glob.glob(os.path.join(src_root, 'C*', 'm*'))):
     prop, k = d.split('/')[-2], d.split('/')[-1]
-    conf = '/tmp/mut/confirm/%s-%s.json' % (prop, k)
+    conf = '/tmp/mut/confirm/%s-%s%s.json' % (prop, tag, k)
     if not os.path.exists(conf):
         continue
     c = json.load(open(conf))
-    dst = '/verif/seeded/%s-%s' % (prop, k)
+    dst = '/verif/seeded/%s-%s%s' % (prop, tag, k)
     os.makedirs(dst, exist_ok=True)
     meta = json.load(open(os.path.join(d, 'meta.json')))
     shutil.copy(os.path.join(d, 'patch.diff'), dst)
